@@ -35,16 +35,17 @@ type Layout struct {
 }
 
 type Cfg struct {
-	Absolute      bool // root location is absolute (/w/api/root.json)
-	MaxObjects    int
-	AvoidUnwalked bool // do not place references at the positions the loader never resolves (known finding)
-	NoDeep        bool
-	NoWholeFile   bool
-	NoChains      bool
-	ElementChains bool // with NoChains: components may still be references to whole single-element files
-	NoExtension   bool // documents are named without a file extension
-	RelativeTwins bool // twin element files also when the root location is relative (C16 open finding)
-	NullEntries   bool // a null entry in encoding maps, sorted before the entry with references (the only map whose null entries stay nil after parsing)
+	Absolute         bool // root location is absolute (/w/api/root.json)
+	MaxObjects       int
+	AvoidUnwalked    bool // do not place references at the positions the loader never resolves (known finding)
+	NoDeep           bool
+	NoWholeFile      bool
+	NoChains         bool
+	ElementChains    bool // with NoChains: components may still be references to whole single-element files
+	NoExtension      bool // documents are named without a file extension
+	RelativeTwins    bool // twin element files also when the root location is relative (C16 open finding)
+	CallbackPathRefs bool // a callback's path item may be a reference to a path of the same document
+	NullEntries      bool // a null entry in encoding maps, sorted before the entry with references (the only map whose null entries stay nil after parsing)
 }
 
 type gen struct {
@@ -543,7 +544,15 @@ func (g *gen) objectN(kind, file string, depth int) M {
 	case "securityScheme":
 		o["type"], o["scheme"] = "http", "basic"
 	case "callback":
-		o["{$request.body#/u}"] = g.objectN("pathItem", file, depth-1)
+		if _, inDoc := g.docs[file]; inDoc && g.cfg.CallbackPathRefs && g.chance(2, "cbpiref") {
+			// the callback's path item is a reference to a path of the document the callback is in
+			key := "/cb-" + o["x-vid"].(string)
+			g.doc(file)["paths"].(M)[key] = g.objectN("pathItem", file, depth-1)
+			o["{$request.body#/u}"] = M{"$ref": "#/paths/" + esc(key)}
+			g.feat["form:callback-pathitem-local"]++
+		} else {
+			o["{$request.body#/u}"] = g.objectN("pathItem", file, depth-1)
+		}
 	case "pathItem":
 		op := M{"responses": M{"200": g.slotOrLeaf("response", file, depth, deep)}}
 		if has("opparams") {
